@@ -1,5 +1,5 @@
 CFG = {
-    "modules": ["Parsley.Props.C05"],
+    "modules": ["Parsley.Props.C05", "Parsley.Props.C05Whole"],
     "theorems": [
         "Parsley.C05.stream_content_framed_iff", "Parsley.C05.stream_content_ok_framed", "Parsley.C05.framed_content",
         "Parsley.C05.stream_content_rejects", "Parsley.C05.stream_no_resync",
@@ -7,17 +7,23 @@ CFG = {
         "Parsley.C05.stream_framing", "Parsley.C05.length_error_propagates",
         "Parsley.C05.indirect_never_panics", "Parsley.C05.duplicate_id_rejected", "Parsley.C05.accepted_registers",
         "Parsley.Indirect.streamContentP_closed", "Parsley.Indirect.closeLen_iff",
+        # whole parser: locality of the head, accept iff framed, no resynchronisation, white-space grammar
+        "Parsley.IndirectLocal.parseObjB_ext", "Parsley.IndirectLocal.parseObjB_local", "Parsley.IndirectLocal.parseObj_local",
+        "Parsley.IndirectLocal.indirectHead_local", "Parsley.IndirectLocal.indirectHead_not_stream",
+        "Parsley.C05.streamHead_of_parse", "Parsley.C05.parse_of_streamHead",
+        "Parsley.C05.indirect_stream_framing", "Parsley.C05.indirect_stream_no_resync",
+        "Parsley.C05.parseIndirect_window", "Parsley.C05.indirect_stream_no_resync_outcome",
+        "Parsley.C05.indirect_length_error", "Parsley.C05.streamHead_defs",
+        "Parsley.IndirectWs.wsEOL_accepts_exactly", "Parsley.IndirectWs.endobj_follows_iff",
+        "Parsley.C05.endobj_gap_grammar", "Parsley.C05.endobj_follows_grammar",
     ],
     "partial": {
-        "(stream_no_resync at the level of parse_pdf_indirect_obj)":
-            "stream_no_resync is proved at full strength for StreamContentP (any head, any two n-byte windows, any tail). "
-            "Lifting it to the whole indirect-object parser needs a locality lemma for the object parser (the parse of "
-            "`n g obj <<dict>>` does not read beyond the `stream` keyword), which is not proved; stream_framing gives the "
-            "equivalent statement relative to the parsed head (its right-hand side mentions the payload only through Framed), "
-            "and the correspondence run exercises keyword-laden payloads end to end",
-        "(endobj follows)":
-            "the white space between `endstream` and `endobj` is described by the token-level model wsEOL (C15/C02), not by a "
-            "separate declarative grammar; the oracle uses an independent spec-side skipWs",
+        "(head of the object, declaratively)":
+            "indirect_stream_framing describes everything from the payload on declaratively (any n bytes, [CR][LF], endstream, "
+            "WsRun, endobj) and constrains the head `[ws] num gen obj <<dict>> [ws] stream EOL` to be a property of the bytes "
+            "in front of the payload alone (StreamHead = the head parser run on that prefix as a buffer of its own; locality "
+            "lemmas streamHead_of_parse / parse_of_streamHead); a grammar of the head's bytes is the subject of C02 "
+            "(spell_parse), not restated here",
     },
     "n": {"quick": 1500, "thorough": 60000},
     "exhaustive": {"quick": False, "thorough": True},
@@ -44,12 +50,20 @@ CFG = {
 LEVEL = {
     "design_ref": "DESIGN.md 3.C05",
     "technique": "Lean 4 theorems over an executable model of IndirectP::parse_internal / StreamContentP / PDFObjContext (closed form of the stream-content "
-                 "parser by position-shift lemmas) + differential correspondence with parse_pdf_indirect_obj on generated scenes, judged by a declarative oracle",
+                 "parser by position-shift lemmas; prefix locality of the object parser by truncation + extension lemmas) + differential correspondence with parse_pdf_indirect_obj on generated scenes, judged by a declarative oracle",
     "text": "Machine-checked proof, for all buffers, cursors, declared lengths, payload bytes and contexts, that StreamContentP succeeds exactly when the buffer is "
             "framed `stream` (LF|CRLF) <n bytes, whatever they are> [CR][LF] `endstream` and then returns exactly those n bytes with start/size as reported; that "
             "replacing the n data bytes by any other n bytes changes only the returned content (no resynchronisation); that the length lookup computes the declarative "
             "relation (missing/negative/non-integer/reference to non-integer => guard error, undefined reference => InsufficientContext, reference to integer => it); that "
             "parse_internal on a stream object succeeds iff length resolves, framing holds, endobj follows and the identifier is new; that no panic site is reachable; and "
-            "that a duplicate identifier is rejected after BTreeMap::insert has replaced the old binding. The model is tied to parse_pdf_indirect_obj by a correspondence run "
+            "that a duplicate identifier is rejected after BTreeMap::insert has replaced the old binding. Lifted to the WHOLE parser parse_pdf_indirect_obj by a proved "
+            "locality lemma for the object parser (truncation + extension: if two buffers agree up to the end of `stream` EOL, the head `n g obj <<dict>>` parses identically; "
+            "every token parser, number/reference look-ahead, arrays, dictionaries, all nesting budgets): indirect_stream_framing (a stream object is returned iff the buffer is "
+            "head ++ n arbitrary bytes ++ [CR][LF] endstream ++ white space ++ endobj, length resolving to n directly or through the context, identifier new), "
+            "indirect_stream_no_resync (replacing the n data bytes of an accepted object by ANY n bytes changes only the content field: same id, dictionary, start/size, spans, cursor) "
+            "indirect_stream_no_resync_outcome (for every outcome, accepted or rejected: same error kind and cursor, or same object up to the content field) "
+            "and indirect_length_error (an unresolved length is the result of the whole call, whatever follows the head). The white space "
+            "between `endstream` and `endobj` has a declarative grammar (Gap / WsRun: white-space bytes and LF-terminated comments) and the token-level WhitespaceEOL is proved to accept exactly it. "
+            "The model is tied to parse_pdf_indirect_obj by a correspondence run "
             "(value, start/size/content, spans, cursor, error kind, depth delta, context look-ups) on systematic and random scenes with keyword-laden payloads.",
 }
